@@ -113,7 +113,7 @@ func NewApp(db dbm.DB, home string) (*app.App, error) { return NewAppBinary(db, 
 
 // NewAppBinary constructs the application; with previous=true it emulates the previous
 // release: the same code with the newest upgrade descriptor (and hence its handler) absent.
-func NewAppBinary(db dbm.DB, home string, previous bool) (*app.App, error) {
+func NewAppBinary(db dbm.DB, home string, previous bool) (a *app.App, err error) {
 	Setup()
 	if home == "" {
 		home = defaultHome()
@@ -121,6 +121,15 @@ func NewAppBinary(db dbm.DB, home string, previous bool) (*app.App, error) {
 	opts := sims.AppOptionsMap{flags.FlagHome: home}
 	appBuildMu.Lock()
 	saved := app.Upgrades
+	// whatever the constructor does (including a panic under a changed tree), the descriptor
+	// list is restored and the lock released; a panic is reported as an error
+	defer func() {
+		app.Upgrades = saved
+		appBuildMu.Unlock()
+		if r := recover(); r != nil {
+			a, err = nil, fmt.Errorf("PANIC while constructing the application: %v", r)
+		}
+	}()
 	if previous {
 		app.Upgrades = saved[:len(saved)-1]
 	}
@@ -128,29 +137,20 @@ func NewAppBinary(db dbm.DB, home string, previous bool) (*app.App, error) {
 	// constructor does after loading). A load failure there calls os.Exit, so when an upgrade
 	// store loader is about to run (upgrade-info.json present) the load is first tried on a
 	// throw-away instance that reports the error instead.
-	if _, err := os.Stat(filepath.Join(home, "data", "upgrade-info.json")); err == nil {
+	if _, serr := os.Stat(filepath.Join(home, "data", "upgrade-info.json")); serr == nil {
 		var probe *app.App
 		func() {
-			defer func() { app.Upgrades = saved }()
+			// a constructor that cannot run without loaded stores is not probed
+			defer func() { _ = recover() }()
 			probe = app.New(log.NewNopLogger(), db, nil, false, opts, baseapp.SetChainID(ChainID))
 		}()
-		if previous {
-			app.Upgrades = saved[:len(saved)-1]
-		}
-		if err := probe.LoadLatestVersion(); err != nil {
-			app.Upgrades = saved
-			appBuildMu.Unlock()
-			return nil, err
+		if probe != nil {
+			if lerr := probe.LoadLatestVersion(); lerr != nil {
+				return nil, lerr
+			}
 		}
 	}
-	var a *app.App
-	func() {
-		defer func() {
-			app.Upgrades = saved
-			appBuildMu.Unlock()
-		}()
-		a = app.New(log.NewNopLogger(), db, nil, true, opts, baseapp.SetChainID(ChainID))
-	}()
+	a = app.New(log.NewNopLogger(), db, nil, true, opts, baseapp.SetChainID(ChainID))
 	return a, nil
 }
 
